@@ -326,6 +326,13 @@ def r2_handlers(ctx, A):
                   % (n, n, [x[:120] for x in extra], [x[:120] for x in missing]), loc=ha.loc())
         if len(ctx.samples) < 4:
             ctx.sample({"pair": n, "fs": sa["fs"][0][0] if sa["fs"] else None, "replies": [(k, dict(list(f.items())[:3])) for (k, f) in sa["replies"][:3]]})
+    # version-dependent reply arms are taken under the same protocol-version facts as in the sync handlers (shared with C03)
+    from rules import c03
+    frames = []
+    for (hs, ha) in pairs:
+        body, va = async_frame(A, ha)
+        frames.append((hs.name, body, va, ha))
+    c03.version_arms(ctx, A, "R2-handler-agreement", None, frames=frames)
     ctx.check("R2-handler-agreement", "pairs", len(pairs) >= 10, "only %d async/sync handler pairs found" % len(pairs))
     ctx.floor("R2-handler-agreement", 60)
 
